@@ -130,3 +130,10 @@ Section Decisive.
               has_equal_value_to convert tol lower (fst qm) (snd qm))
            (compared_pairs p).
 End Decisive.
+
+(** Scaling the outcome of a compilation: the tables of a recipe, nothing of an error. *)
+Definition scale_outcome (k : num) (o : outcome) : option outcome :=
+  match o with
+  | COk bs => option_map COk (scale_blocks k bs)
+  | other => Some other
+  end.
